@@ -41,17 +41,17 @@ class FuncInfo:
 
 
 def _walk_own(fn):
-    """walk a function body without descending into nested function/class definitions"""
-    todo = list(fn.body)
-    while todo:
-        n = todo.pop(0)
+    """walk a function body in SOURCE order (depth-first, pre-order) without descending into nested defs/classes"""
+    def rec(n):
         yield n
         for c in ast.iter_child_nodes(n):
             if isinstance(c, (ast.FunctionDef, ast.AsyncFunctionDef, ast.ClassDef, ast.Lambda)):
-                if isinstance(c, ast.Lambda):
-                    continue
                 continue
-            todo.append(c)
+            yield from rec(c)
+    for st in fn.body:
+        if isinstance(st, (ast.FunctionDef, ast.AsyncFunctionDef, ast.ClassDef)):
+            continue
+        yield from rec(st)
 
 
 class Module:
